@@ -37,3 +37,15 @@ func init() {
 		Assume: []string{"names are single path elements (the statement's precondition for Path)"},
 		Rule: "cases: every labeled forest up to the node bound x 3 branch tuples, plus seeded random forests to 60 nodes, through WalkFromMarkdown, WalkFromRoot, WalkIterFromRoot and the three deprecated aliases; visit sequences compared with the model rows (Row, Branch, Name, Level, Path, HasChild) and with the text output's lines; a failing callback / break at every visit index k (exhaustive part) must stop after exactly k+1 visits and return the callback's error unchanged; distinct key = hash(forest, entry, branch tuple | stop index); non-trivial = >= 3 nodes, or any stop-at-k case"}
 }
+
+func init() {
+	props["C06"] = propCfg{Level: "exploration",
+		Assume: []string{"the process runs as root on a Linux filesystem; symlinks are not part of the workload", "snapshots ignore directory mtimes"},
+		Rule: "cases: every labeled forest up to the node bound over {a.go,b} with distinct roots x 7 extension lists x target states {empty, missing nested, pre-populated, default via chdir} x {MkdirFromMarkdown, MkdirFromRoot, 2 aliases}; every non-empty subset of roots pre-existing as directory or as file; an over-long name at every node position and a target path through a regular file (OS refusals); plus seeded random forests over extension-bait/Unicode/quoting names; one evaluation = one real Mkdir judged on the jail's after-before snapshot; distinct key = hash(forest, route, ext list, target state | pre-existing mask | refusal position); non-trivial = >= 2 nodes, or any pre-existing / refusal case"}
+}
+
+func init() {
+	props["C07"] = propCfg{Level: "exploration",
+		Assume: []string{"an escape of more than five directory levels would leave the snapshotted jail (trees here are at most 5 levels deep)", "must-reject names: contain '/', equal '..', equal '.' below the root, or empty"},
+		Rule: "cases: every forest shape up to the node bound with one hostile name ('..', '.', 'a/b', '/abs', '../x', 'a/../../x', NUL, 256 bytes, ...) at every node position, plus seeded random forests with several hostile names (From-Root additionally empty and LF names) x {MkdirFromMarkdown, MkdirFromRoot} x {dry-run, real} x {simple, massive} x extension lists x target forms {absolute, default via chdir, relative}; one evaluation = one real call judged on the jail snapshot outside and inside the target; distinct key = hash(forest, route, mode, ext list, target form); every case is non-trivial (contains a hostile name)"}
+}
